@@ -1,12 +1,12 @@
 import Lc.Driver.Util
 import Lc.Driver.Base
 import Lc.Driver.C12
-import Lc.Driver.Scenario
+import Lc.Driver.ScenarioHandle
 
 open Lean Lc.Driver
 
 def handlers : List (String → Json → Option Json) :=
-  [Base.handle, C12.handle, Scenario.handle]
+  [Base.handle, C12.handle, ScenarioHandle.handle]
 
 def dispatch (j : Json) : Json :=
   let op := getStr j "op"
